@@ -24,6 +24,7 @@ def gen_function(world, contracts, externals, key):
     Exec.seq = 0
     X = Exec(V, key, 0)
     X.localcells = set()
+    V.anc = X.cfg['anc']
     fn = X.fn
     c = contracts['funcs'].get(key)
     H0 = Heap(V)
@@ -67,6 +68,7 @@ def gen_function(world, contracts, externals, key):
     rr, res, hp = X.run(args, H0, z3.BoolVal(True))
     V.cur_block = None
     V.exit_reach = rr
+    V.result_terms = res
     if c is not None:
         renv = dict(env)
         rsv = []
@@ -136,6 +138,10 @@ def obligation_smt2(V, ob, timeout_ms=None):
         s.add(h)
     s.add(ob.reach)
     s.add(z3.Not(ob.goal))
+    if ob.kind == 'post':
+        for i, t in enumerate(getattr(V, 'result_terms', [])):
+            if z3.is_expr(t):
+                s.add(z3.Const('govc_result_%d' % i, t.sort()) == t)
     return s.to_smt2()
 
 
@@ -174,7 +180,13 @@ def run_inprocess(smt2, timeout):
     if r == z3.sat:
         try:
             m = s.model()
-            model = {str(d.name()): str(m[d]) for d in m.decls() if d.arity() == 0}
+            model = {str(d.name()): str(m[d]) for d in m.decls() if d.arity() == 0 and not z3.is_array(m[d])}
+            ps = [d for d in m.decls() if d.arity() == 0 and str(d.name()).startswith('p_') and z3.is_int(d())]
+            for d in m.decls():
+                nm = str(d.name())
+                if d.arity() == 0 and nm.startswith('H0_f_') and z3.is_array(d()):
+                    for p in ps:
+                        model['%s[%s]' % (nm, p.name())] = str(m.eval(d()[p()], model_completion=True))
         except z3.Z3Exception:
             model = None
     return str(r), time.time() - t0, model
@@ -212,3 +224,25 @@ def solve_text(smt2, timeout, workdir, tag, order=('z3-5.1', 'z3-4.8', 'cvc5'), 
         except OSError:
             pass
     return {'verdict': verdict, 'solver': winner, 'time': round(total, 3), 'details': details, 'path': path, 'model': model}
+
+
+def gen_lemmas(world, contracts, externals, pkg):
+    """lemmas of one package's contract files: each is proved from the axioms and the lemmas before it"""
+    V = Verifier(world, contracts, externals, 'lemma:' + pkg)
+    V.top_entry_heap = Heap(V)
+    H0 = V.top_entry_heap
+    out = []
+    prior = []
+    for (lab, ast, txt, f) in contracts['axioms']:
+        prior.append(SpecEval(V, pkg_of_file(f, pkg), {}, H0, old=H0).boolean(ast))
+    for (lab, ast, txt, f) in contracts['lemmas']:
+        if pkg_of_file(f, pkg) != pkg:
+            continue
+        g = SpecEval(V, pkg, {}, H0, old=H0).boolean(ast)
+        s = z3.Solver()
+        for h in prior + V.global_hyps + world.string_axioms():
+            s.add(h)
+        s.add(z3.Not(g))
+        out.append(('lemma:%s.%s' % (pkg, lab), s.to_smt2()))
+        prior.append(g)
+    return out
